@@ -491,6 +491,11 @@ theorem kmedoids_meets_spec :
 
 end top
 
+/-- the hypotheses of the theorems above are met by the example below (`reverse` is a permutation, the start
+    medoids are data points) -/
+example : (∀ (i : Nat) (l : List Nat), ((fun (_ : Nat) (l : List Nat) => l.reverse) i l).Perm l) ∧
+    (∀ m ∈ [2, 3], m ∈ [0, 1, 2, 3, 4, 5]) := ⟨fun _ l => List.reverse_perm l, by decide⟩
+
 /-- the executable partition check is sound: it implies the counting form of "partition" -/
 theorem specPartition_sound (data : List Nat) (cl : Clusters) (h : specPartition data cl = true) :
     (∀ x, (cl.flatMap (·.2)).count x = data.count x) ∧ (cl.map (·.1)).Nodup ∧ ∀ kv ∈ cl, kv.2 ≠ [] := by
